@@ -52,6 +52,9 @@ Oracle (written from the statement):
   fired_inactive   a handler/delay/switch handler registered by the custom mode code runs while the mode is not active
                    (relaxation R5: not judged in the very instant in which mode_<m>_stopped is posted - the stop completes
                    when that event has been dispatched).
+  wait_queue       use_wait_queue modes started by a queue event: that queue event is not released before/while its run
+                   is running, and is released (exactly once) after the run posted mode_<m>_stopped - judged at the next
+                   fault-free settle, not only at the end; at quiescence no start queue of a stopped mode is still held.
   mpf_crash        an exception reaches the loop's exception handler.
 
 Clean on /repo 9e48a14 + proposed_fixes/C07-1, -3, -4, -5, -6, -7 (C07-2 and C02's two queue-event repairs are already in
@@ -66,7 +69,7 @@ from checks import _c07_helpers as H
 
 ID = "C07"
 LEVEL = "exploration"
-RUNS = {"quick": 1200, "thorough": 30000}
+RUNS = {"quick": 1000, "thorough": 30000}
 WALL_CAP = {"quick": 150, "thorough": 3000}
 RULE = ("one case = one generated history (3-45 operations, 0-4 hooks on lifecycle events with scripted reactions) of "
         "start/stop requests over 9 modes (40 % of the cases inside a device-less game with ball ends, player changes "
@@ -81,7 +84,7 @@ PROBES = ["start_while_starting", "start_while_stopping", "stop_while_starting",
           "stop_by_own_device", "refused_game_mode", "priority_override", "switch_while_active", "var_flip_while_active",
           "game_started", "game_ended", "ball_started", "game_drain", "game_add_player_request", "game_end_request",
           "ball_end_with_game_mode_active", "delayed_control_event_in_active", "delayed_control_event_in_stopping",
-          "stop_with_delayed_control_event_pending", "registry_compared_in_game", "registry_after_game_mode_stop",
+          "stop_with_delayed_control_event_pending", "wait_queue_run", "wait_queue_restart_same_instant", "registry_compared_in_game", "registry_after_game_mode_stop",
           "registry_compared_after_game"]
 REAL = ["mpf.core.mode.Mode", "mpf.core.mode_controller.ModeController", "mpf.core.config_player.ConfigPlayer and the "
         "event/variable/light/show/coil/queue_relay players", "mpf.core.mode_device / logic blocks / timers / combo_switch",
@@ -98,6 +101,7 @@ STATE_ABSTRACTION = "(per mode last lifecycle event, number of outstanding holds
 
 TEST_MODES = ["plain", "hi", "lo", "wq", "dev", "players", "coded", "gm", "gshots"]
 GAME_MODES = ("gm", "gshots")
+WAIT_QUEUE_MODES = ("wq",)
 PHASES = ["will_start", "starting", "started", "will_stop", "stopping", "stopped"]
 NEXT = {None: "will_start", "will_start": "starting", "starting": "started", "started": "will_stop",
         "will_stop": "stopping", "stopping": "stopped", "stopped": "will_start"}
@@ -174,7 +178,8 @@ def _gen_hook(ch, focus):
 def _gen_op(ch, focus, allow_burst=True):
     kind = ch.weighted("op", [("req", 10), ("trigger", 5), ("group", 1), ("var", 1),
                               ("switch", 3 if ("dev" in focus or "coded" in focus) else 1),
-                              ("checkpoint", 0.7), ("burst", 1.5 if allow_burst else 0), ("clear_holds", 0.4)])
+                              ("checkpoint", 0.7), ("burst", 1.5 if allow_burst else 0), ("clear_holds", 0.4),
+                              ("restart", 1.5 if allow_burst else 0)])
     op = {"op": kind}
     if kind == "req":
         op.update(_gen_request(ch, focus))
@@ -188,6 +193,18 @@ def _gen_op(ch, focus, allow_burst=True):
     elif kind == "switch":
         op["switch"] = ch.pick("sw", SWITCHES + (GAME_SWITCHES * 2 if "gshots" in focus else []))
         op["state"] = ch.choice("sw_state", 2)
+    elif kind == "restart":
+        # stop and start again in one instant (either order), the wait-queue mode mostly through queue events
+        mode = ch.weighted("restart.mode", [(x, 4 if x == "wq" else 1) for x in focus])
+        stop = {"op": "req", "kind": "stop", "mode": mode, "via": ch.pick("restart.stop_via", ["direct", "event"])}
+        start = {"op": "req", "kind": "start", "mode": mode,
+                 "via": ch.weighted("restart.start_via", [("queue", 4 if mode == "wq" else 1), ("event", 2), ("direct", 1)])}
+        if ch.flag("restart.cb", 0.3) and stop["via"] == "direct":
+            stop["cb"] = True
+        op["op"] = "burst"
+        op["ops"] = [stop, start] if ch.flag("restart.order", 0.7) else [start, stop]
+        if ch.flag("restart.twice", 0.2):
+            op["ops"].append(dict(start))
     elif kind == "burst":
         # several things in one instant; half of the bursts stay with one mode (request + its own triggers)
         one = ch.pick("burst_mode", focus) if ch.flag("burst_one", 0.5) else None
@@ -209,6 +226,14 @@ def plan(ch, tier):
     if game:
         focus = sorted(set(focus) | {"gshots"})
     hooks = [_gen_hook(ch.sub("h%d" % i), focus) for i in range(ch.weighted("nhooks", [(0, 3), (1, 3), (2, 2), (4, 1)]))]
+    if "wq" in focus and ch.flag("wq_stopping_hook", 0.5):
+        # with a handler on mode_wq_stopping the stop completes inside a dispatcher task: requests that are already
+        # queued on the bus are then processed between `stopped` and the clean-up of the run
+        act = {}
+        if ch.flag("wq_stopping_hold", 0.3):
+            act["hold"] = ch.pick("wq_stopping_hold_d", HOLDS)
+        hooks.append({"mode": "wq", "phase": "stopping", "prio": ch.pick("wq_stopping_prio", [1, 1000000, -1000000]),
+                      "script": [dict(act) for _ in range(1 + ch.choice("wq_stopping_n", 4))]})
     n = 3 + ch.choice("nops", 43)
     ops = []
     for _ in range(n):
@@ -340,6 +365,9 @@ def execute(ctx, plan):
     last_life = [0.0]
     stopped_at = {n: [] for n in TEST_MODES}
     pending_delayed = []    # (mode, due time) of delayed control events posted while their mode was running
+    # wait-queue modes: which queue event (token) started the current run; tokens in posting order = dispatch order
+    wq_run = {n: {"starter": None, "stopped": True} for n in WAIT_QUEUE_MODES}
+    wq_owed = []            # starters of runs that have stopped: must be released (exactly once) by the next settle
     after_stop_check = []
 
     def now():
@@ -383,6 +411,28 @@ def execute(ctx, plan):
         if (want[0] is not None and a != want[0]) or sg != want[1]:
             ctx.violation("flags", "%s: active=%s starting=%s" % (phase, a, sg),
                           "mode %s posts %s with active=%s starting=%s stopping=%s at t=%.6f" % (n, phase, a, sg, sp, now()))
+        if n in WAIT_QUEUE_MODES:
+            run = wq_run[n]
+            if phase == "will_start":
+                # Mode.start passes the kwargs of the event that started it on to its lifecycle events: the harness tags
+                # its queue start events, so the run can be attributed to the queue event that started it
+                tid = kwargs.get("c07_token") if kwargs.get("queue") is not None else None
+                tok = tokens[tid] if isinstance(tid, int) and 0 <= tid < len(tokens) else None
+                run["starter"], run["stopped"] = tok, False
+                ctx.log("run_starter", n, tid, t=now())
+                if tok is not None:
+                    ctx.probe("wait_queue_run")
+                    if st[n]["last"] == "stopped" and stopped_at[n] and abs(stopped_at[n][-1] - now()) < 1e-9:
+                        ctx.probe("wait_queue_restart_same_instant")
+                    if tok["calls"]:
+                        ctx.violation("wait_queue", "start queue of %s released before its run started" % n,
+                                      "mode %s starts a run at t=%.6f for the queue event posted at %.6f, but that queue "
+                                      "event has already been released (use_wait_queue: it has to wait until the run "
+                                      "has stopped)" % (n, now(), tok["t"]))
+            elif phase == "stopped":
+                run["stopped"] = True
+                if run["starter"] is not None:
+                    wq_owed.append(run["starter"])
         s["last"] = phase
         last_life[0] = now()
         s["count"][phase] += 1
@@ -480,6 +530,13 @@ def execute(ctx, plan):
             if tok["accepted"] is False:
                 ctx.violation("callbacks", "%s callback of a refused request" % kind,
                               "%s callback of mode %s called although the request at %.6f was refused" % (kind, n, tok["t"]))
+            if kind == "queue_start" and n in WAIT_QUEUE_MODES:
+                run = wq_run[n]
+                if run["starter"] is tok and not run["stopped"]:
+                    ctx.violation("wait_queue", "start queue of %s released while its run is running" % n,
+                                  "the queue event which started the current run of %s (posted at %.6f) was released at "
+                                  "t=%.6f, before that run posted mode_%s_stopped (last event %s)"
+                                  % (n, tok["t"], now(), n, st[n]["last"]))
             if kind == "start" and not modes[n].active and st[n]["last"] not in ("will_stop", "stopping", "stopped"):
                 ctx.violation("callbacks", "start callback before active", "start callback of %s called while active=False" % n)
         return tok, _mark(cb)
@@ -587,7 +644,10 @@ def execute(ctx, plan):
                 info["wq_queue_start"] = True
             tok, cb = new_token("queue_start", n)
             tok["accepted"] = True
-            ev.post_queue("start_%s" % n, callback=cb)
+            if n in WAIT_QUEUE_MODES:
+                ev.post_queue("start_%s" % n, callback=cb, c07_token=tok["id"])
+            else:
+                ev.post_queue("start_%s" % n, callback=cb)
             if must:
                 expect_later(n, must, "start by queue event", hops=4)
 
@@ -838,6 +898,16 @@ def execute(ctx, plan):
             if not holds and quiet_bus() and all(settled(n) for n in TEST_MODES):
                 break
         judge_coded()
+        if not holds and quiet_bus():
+            while wq_owed:
+                tok = wq_owed.pop(0)
+                if tok["calls"] != 1:
+                    ctx.violation("wait_queue", "start queue of %s still held after its run stopped" % tok["mode"],
+                                  "%s: the queue event which started a run of %s (posted at %.6f) was released %d times "
+                                  "although that run has posted mode_%s_stopped and the loop ran fault-free since "
+                                  "(stops at %r)" % (why, tok["mode"], tok["t"], tok["calls"], tok["mode"],
+                                                     stopped_at[tok["mode"]][-3:]))
+                    tok["calls"] = 1
         for n in TEST_MODES:
             if settled(n) is None and not holds:
                 if n == "wq" and wedge_fc02():
